@@ -180,3 +180,10 @@ var _ utils.PriorityQueue
 //@ ensures [shards] wfShards(this)
 //@ ensures [stored-inv] wfStored(this)
 //@ modifies this.len, this.bytesSize, this.entrypoint, map(shard(this, id)), type hnswVertex.deleted, mem[hnswEdgeSet], maps[hnswEdgeSet], cells[utils.minPriorityQueue], cells[utils.maxPriorityQueue], mem[*utils.PriorityQueueItem]
+
+// BytesSize mixes the exact data counter with a floating-point link estimate; only its frame is used (C17).
+//@ func (*index.Hnsw).BytesSize
+//@ props C17 C02
+//@ assume
+//@ pure
+//@ modifies nothing
